@@ -56,12 +56,17 @@ structure ResetReq where
   ids : List (BitVec 16)
 deriving Inhabited, Repr, DecidableEq
 
-/-- what the receive half puts on the control queue / emits in `gather` -/
-inductive Out
-  | abort                                   -- ABORT with a protocol-violation cause
+/-- what the receive half puts on the control queue -/
+inductive Ctl
   | hback (info : String)                   -- HEARTBEAT-ACK echoing the info (hex)
   | resp (rsn : BitVec 32) (result : Nat)   -- RE-CONFIG response
   | error                                   -- ERROR (unrecognised chunk type)
+deriving Inhabited, Repr, DecidableEq
+
+/-- what `gather` emits for the receive half -/
+inductive Out
+  | abort                                   -- ABORT with a protocol-violation cause
+  | ctl (c : Ctl)                           -- a packet from the control queue
   | sack (cum : TSN) (arwnd : BitVec 32) (gaps : List (BitVec 16 × BitVec 16)) (dups : List TSN)
 deriving Inhabited, Repr, DecidableEq
 
@@ -84,7 +89,7 @@ structure St where
   immTrig : Bool := false      -- immediateAckTriggered
   delTrig : Bool := false      -- delayedAckTriggered
   willSendAbort : Bool := false
-  control : List Out := []
+  control : List Ctl := []
   resetReqs : List ResetReq := []
   performed : List (BitVec 32) := []
   newestPerformed : BitVec 32 := 0
@@ -362,8 +367,8 @@ def gather (s : St) : St × List Out × Bool :=
     let s1 := { s with control := [], state := if st0 == 5#32 then 7#32 else if st0 == 6#32 then 4#32 else st0 }
     if (st0 == 3#32 || st0 == 5#32 || st0 == 6#32 || st0 == 7#32) && sack_pending (a_ackState := s.ackState) then
       let r := createSack { s1 with ackState := ackStateIdle }
-      (r.1, s.control ++ [r.2], true)
-    else (s1, s.control, true)
+      (r.1, s.control.map Out.ctl ++ [r.2], true)
+    else (s1, s.control.map Out.ctl, true)
 
 /-- Go: `onAckTimeout` -/
 def ackTimeout (s : St) : St := { s with ackState := ackStateImmediate }
